@@ -747,8 +747,10 @@ package modules
 //@   at call (*Task).removeFromQueues assert arg0 == t
 //@   at after (*Task).removeFromQueues ghost removed = true
 //@   at after (*Task).removeFromQueues ghost wasExec = t.executing
-//@   at after (*Task).isActive ghost active = ret0
+//@   at optional after (*Task).isActive ghost active = ret0
 //@   at store executing ghost marked = value
+// (stated on the task itself, whatever helper the check goes through: a cancelled task is never spawned)
+//@   at go (*Task).executeWithLocking assert !t.canceled
 //@   at call (*WaitGroup).Add assert arg0 == queueWg && arg1 == 1 && marked
 //@   at call (*WaitGroup).Add ghost added = added + 1
 //@   at go (*Task).executeWithLocking assert removed && !wasExec && active && marked && added == 1 && arg0 == t
